@@ -80,7 +80,9 @@ def run(ctx):
         pts = rng.integers(-20, 21, size=(int(rng.integers(1, 7)), 3)).astype(float)
         nanrows = rng.random(len(pts)) < 0.25
         P = pts.copy()
-        P[nanrows] = np.nan
+        for i_ in np.nonzero(nanrows)[0]:          # whole-row NaN or NaN in only some coordinates (x may stay finite)
+            cols_ = [0, 1, 2] if rng.random() < 0.4 else [int(v) for v in rng.choice([0, 1, 2], size=int(rng.integers(1, 3)), replace=False)]
+            P[i_, cols_] = np.nan
         if rng.random() < 0.3:
             P = P.astype(np.float32)
         P0 = P.copy()
@@ -223,8 +225,10 @@ def run(ctx):
             got = extra
             for i, row in enumerate(r):
                 if row is None:
-                    if not np.all(np.isnan(got[i])):
-                        ctx.violation('a NaN row did not stay NaN in a transform sequence', desc, dict(row=i, got=got[i].tolist()))
+                    src_ = np.asarray(desc['points'][i], dtype=float)
+                    g_ = np.asarray(got[i], dtype=float)
+                    if not (np.array_equal(np.isnan(g_), np.isnan(src_)) and np.array_equal(g_[~np.isnan(g_)], src_[~np.isnan(src_)])):
+                        ctx.violation('a row containing NaN was not left untouched by the transform sequence', desc, dict(row=i, got=g_.tolist(), given=src_.tolist()))
                         break
                 else:
                     v = flat(row.v)
